@@ -13,7 +13,9 @@ _vravel = jax.vmap(jnp.ravel, in_axes=0, out_axes=0)
 
 
 def _history_to_matrix(history: Position) -> Array:
-    return jnp.column_stack([_vravel(x) for x in history.values()])
+    # same leaf order as jax.flatten_util.ravel_pytree, which defines the flat
+    # coordinates of the position the inverse mass matrix is applied to
+    return jnp.column_stack([_vravel(x) for x in jax.tree_util.tree_leaves(history)])
 
 
 def tune_inv_mm_diag(history: Position) -> Array:
